@@ -729,6 +729,10 @@ class Engine(object):
     table = self.tables[table_id]
     col = table.get_column(col_id)
     checkpoint = self._get_undo_checkpoint()
+    # Evaluating the formula may also schedule automatic removals (e.g. of a summary row that
+    # lookupOrAddDerived() just created, or via getSummarySourceGroup). Remember what was scheduled
+    # before, so that this read-only evaluation leaves nothing behind for the next bundle.
+    auto_removes = set(self.docmodel._auto_remove_set)
     # Makes calls to REQUEST synchronous, since raising a RequestingError can't work here.
     self._sync_request = True
     try:
@@ -739,6 +743,7 @@ class Engine(object):
       # processed (e.g. don't get applied to DocStorage), so it's important to reverse them.
       self._sync_request = False
       self._undo_to_checkpoint(checkpoint)
+      self.docmodel._auto_remove_set = auto_removes
 
   def _recompute(self, node, row_ids=None):
     """
